@@ -61,8 +61,18 @@ type Expect struct {
 	Calls map[string]int
 	// Borderline lists data paths whose leaf value is only shape-checked.
 	Borderline map[string]string
+	BorderPath map[string][]interface{}
+	BorderN    map[string]int // occurrences (the same key may be selected more than once)
+	// BadEnum: paths where the resolver returned a name the enum does not declare.
+	BadEnum map[string]BadEnumInfo
 	// Traits observed while executing (for non-triviality rules and class counters).
 	T Traits
+}
+
+// BadEnumInfo describes an undeclared enum name returned by a resolver.
+type BadEnumInfo struct {
+	Path  []interface{}
+	Value string
 }
 
 // Traits are facts about what an execution touched.
@@ -134,7 +144,7 @@ func EffectiveVars(op *Op, vars map[string]Val) map[string]Val {
 
 // Run executes the named operation.
 func (x *Exec) Run(opName string, vars map[string]Val) *Expect {
-	x.out = &Expect{Calls: map[string]int{}, Borderline: map[string]string{}}
+	x.out = &Expect{Calls: map[string]int{}, Borderline: map[string]string{}, BorderPath: map[string][]interface{}{}, BorderN: map[string]int{}, BadEnum: map[string]BadEnumInfo{}}
 	x.faults = map[string]Fault{}
 	for _, f := range x.Faults {
 		x.faults[faultKey(f.Node, f.Field)] = f
@@ -376,10 +386,15 @@ func (x *Exec) complete(v Val, t *TRef, s *Sel, path []interface{}, depth int, n
 	case "bad":
 		x.out.T.LeafBad++
 		x.out.Errors = append(x.out.Errors, ExpErr{Path: path, Kind: "coerce", Sel: s.ID})
+		if enum != nil && (v.K == "string" || v.K == "symbol") {
+			x.out.BadEnum[PathString(path)] = BadEnumInfo{Path: path, Value: v.S}
+		}
 		return nil
 	case "borderline":
 		x.out.T.LeafBorder++
-		x.out.Borderline[PathString(path)] = kind
+		x.out.Borderline[PathString(path)] = t.Name
+		x.out.BorderPath[PathString(path)] = path
+		x.out.BorderN[PathString(path)]++
 		return BorderlineMark{Scalar: kind}
 	}
 	return out
